@@ -16,6 +16,8 @@ Correspondence / search for a failing input, four strata:
                  every management result and the sorted policy equal after every call; the plain side is also
                  compared with the Mgmt model;
   D  decide_equal evaluated by the model (tag 3) on random policies/requests: fast = plain unless empty_rule_quirk.
+  C' further configurations, same spec as C: key orders of one / three / four fields, values containing "," or ", ",
+     models with a second policy definition p2;   A' the container at index depths other than two (set spec only).
 """
 import itertools
 import json
@@ -63,16 +65,46 @@ def key_orders(kind):
     return [list(t) for t in itertools.permutations(fields, 2)]
 
 
-def fast_impl_kwargs(order):
-    return dict(enforcer_cls=casbin.FastEnforcer, enforcer_kwargs=dict(cache_key_order=order),
-                model_factory=lambda: FastModel(order), sort_p=True)
+def fast_impl_kwargs(order, model_text=None):
+    kw = dict(enforcer_cls=casbin.FastEnforcer, enforcer_kwargs=dict(cache_key_order=order),
+              model_factory=lambda: FastModel(order), sort_p=True)
+    if model_text:
+        kw["model_text"] = model_text
+    return kw
 
 
-def make_spec(order):
+class FastImplNoIter(mgmt.Impl):
+    """the FastEnforcer side for key orders of another length than two: FastPolicy's UNFILTERED iteration hard-codes two
+    index levels (policy_fast.py:91-94), so the p rules are not read back after every call (g rules are plain lists)"""
+
+    def policy(self, pt):
+        return [] if pt == 0 else super().policy(pt)
+
+
+def run_fast(kind, rows, lf, ops, order, model_text=None):
+    kw = fast_impl_kwargs(order, model_text)
+    if len(order) == 2:
+        return mgmt.run_impl(kind, rows, lf, ops, **kw)
+    impl = FastImplNoIter(kind, rows, lf, **kw)
+    return impl, [impl.step(op) for op in ops]
+
+
+def make_spec(order, model_text=None):
+    """Fast = plain call by call.  For key orders of another length than two only the results are compared (see
+    FastImplNoIter; the histories of those strata contain only calls the unchanged FastPolicy supports there)."""
+    two = len(order) == 2
+
     def spec_check(kind, rows, lf, ops, obs, impl):
-        fimpl, fobs = mgmt.run_impl(kind, rows, lf, ops, **fast_impl_kwargs(order))
+        try:
+            fimpl, fobs = run_fast(kind, rows, lf, ops, order, model_text)
+        except Exception as exc:  # noqa   (construction / the initial load: Enforcer got through it, see run_cases)
+            return [(0, "FastEnforcer raised while being built / loading the policy that Enforcer loads "
+                        f"({type(exc).__name__})", None)]
         for i, (op, a, b) in enumerate(zip(ops, obs, fobs)):
-            if canon(op, a) != canon(op, b):
+            ca, cb = canon(op, a), canon(op, b)
+            if not two:
+                ca[1] = cb[1] = []
+            if ca != cb:
                 tag = None
                 if op[0] in (50, 51) and len(op[1]) > max(order) and all(op[1][x] == 0 for x in order):
                     tag = KNOWN_EMPTY_KEY
@@ -87,6 +119,8 @@ def make_spec(order):
                     return [(v[0][0], f"{who}: {v[0][1]}", None)]
         return []
     spec_check.case_extra = dict(cache_key_order=list(order))
+    if model_text:
+        spec_check.case_extra["model_text"] = model_text
     return spec_check
 
 
@@ -140,6 +174,7 @@ def run_differential(chk, n):
         mgmt.run_cases(chk, kind, cases, None, label=f"random-{kn}")
         chk.extra.setdefault("strata", {})[f"differential_{kn}"] = dict(histories=len(cases), key_orders=orders)
     run_batch(chk, max(20, n // 2))
+    run_configurations(chk, max(24, n // 4))
 
 
 def run_batch(chk, n):
@@ -178,6 +213,223 @@ def run_batch(chk, n):
         mgmt.run_cases(chk, kind, cases, None, label=f"batch-{kn}", compare_model=False)
         chk.extra.setdefault("strata", {})[f"batch_enforce_{kn}"] = dict(histories=len(cases), batches=nb,
                                                                          repeated_positions=nrep, key_orders=orders)
+
+
+# ============================================================================ C': further configurations
+# (same spec as C - Fast = plain call by call - on configurations the four kinds above do not reach)
+# values that contain the separators of the policy text ("," and ", "); interned here, in a fixed order, so that the atom
+# numbers written to a replay mean the same strings in every run
+COMMA_SUBS = [A(x) for x in ("smith,john", "smith", "smith, john", "alice")]
+COMMA_DOMS = [A(x) for x in ("hr", "john,hr", "john, hr")]
+COMMA_OBJS = [A(x) for x in ("data1", "data1,read")]
+COMMA_ACTS = [A(x) for x in ("read", "write", "read,write")]
+# a second policy definition is stored under its own policy type: the shared row tables learn its name (rows only - no
+# management call of this harness addresses it)
+mgmt.PT.setdefault(3, ("p", "p2"))
+mgmt.PT_OF.setdefault("p2", 3)
+P2_FIELDS = ["sub", "act", "obj", "ext"]
+# all-equality ACL over four fields (r = sub, dom, obj, act; no role definition)
+ACL4 = mgmt.Kind("acl4", dom=True)
+
+
+def comma_universe(kind):
+    u = mgmt.Universe(kind)
+    u.subs, u.objs, u.acts = list(COMMA_SUBS), list(COMMA_OBJS), list(COMMA_ACTS)
+    if kind.dom:
+        u.doms = list(COMMA_DOMS)
+    return u
+
+
+def same_text_rules(kind, uni):
+    """rule of the universe -> the OTHER rules of the universe whose fields joined by "," or by ", " give the same text"""
+    cols = ([] if not kind.prio else [uni.prios]) + [uni.subs] + ([uni.doms] if kind.dom else []) + [uni.objs, uni.acts] + \
+        ([uni.efts] if kind.eft else [])
+    by_text = {}
+    for r in itertools.product(*cols):
+        for sep in (",", ", "):
+            by_text.setdefault((sep, sep.join(S(r))), []).append(r)
+    out = {}
+    for rs in by_text.values():
+        for r in rs:
+            out.setdefault(r, [])
+            out[r].extend(x for x in rs if x != r and x not in out[r])
+    return {r: v for r, v in out.items() if v}
+
+
+def eq_fields(kind):
+    """policy fields the matcher of mgmt.Kind.model_text compares by equality with the request field at the same position"""
+    f = [] if kind.g else [0]
+    if kind.dom:
+        f.append(1)
+    return f + [kind.i_obj, kind.i_act]
+
+
+def orders_of(kind, n):
+    return [list(t) for t in itertools.permutations(eq_fields(kind), n)]
+
+
+def drop_empty_key(ops):
+    return [o for o in ops if not (o[0] in (50, 51) and all(v == 0 for v in o[1]))]
+
+
+def run_commas(chk, n):
+    """values containing "," / ", " (so that DIFFERENT rules can have the same comma-joined text, also inside one bucket),
+    on four-field models (two fields outside the key) and the three-field ones; no adapter: the policy text format
+    itself cannot carry such values, they arrive through the management API"""
+    rng = chk.rng
+    for kn, kind, share in (("acl4", ACL4, 1.0), ("dom", mgmt.KINDS["dom"], 0.5), ("acl", mgmt.KINDS["acl"], 0.25),
+                            ("rbac", mgmt.KINDS["rbac"], 0.25)):
+        kind = kind.with_(adapter=False)
+        orders = orders_of(kind, 2)
+        twin_map = same_text_rules(kind, comma_universe(kind))
+        cases, twins = [], 0
+        for i in range(max(4, int(n * share))):
+            order = orders[i % len(orders)]
+            g = mgmt.Gen(rng, kind, W)
+            g.uni = comma_universe(kind)
+            ops = []
+            for _ in range(rng.randint(3, 16)):
+                new = g.op()
+                ops.extend(new)
+                if new[0][0] == 1 and new[0][1] == 0 and rng.random() < 0.5:
+                    # another rule of the universe with the same joined text is added too (and known to the generator)
+                    tw = [t for t in twin_map.get(tuple(new[0][2]), ())]
+                    if tw:
+                        t = list(rng.choice(tw))
+                        g.seen[0].append(t)
+                        g.present.append(t)
+                        ops.append((1, 0, t))
+            ops = drop_empty_key(ops)
+            ops += mgmt.probe_ops(kind, g.uni, roles=False)
+            if rng.random() < 0.15:
+                ops.insert(rng.randrange(len(ops)), (38, False))
+            added = [tuple(o[2]) for o in ops if o[0] == 1 and o[1] == 0] + \
+                    [tuple(r) for o in ops if o[0] == 2 and o[1] == 0 for r in o[2]]
+            texts = {}
+            for r in added:
+                texts.setdefault(",".join(S(r)), set()).add(r)
+                texts.setdefault(", ".join(S(r)), set()).add(r)
+            twins += any(len(v) > 1 for v in texts.values())
+            cases.append(([], True, ops, make_spec(order)))
+        mgmt.run_cases(chk, kind, cases, None, label=f"commas-{kn}")
+        chk.extra.setdefault("strata", {})[f"comma_values_{kn}"] = dict(
+            histories=len(cases), key_orders=orders, histories_adding_two_rules_with_one_joined_text=twins)
+
+
+def p2_model_text(kind, n2):
+    """kind's model with a second request / policy definition / matcher of n2 fields next to the first"""
+    names = P2_FIELDS[:n2]
+    out = []
+    for line in kind.model_text().split("\n"):
+        out.append(line)
+        if line.startswith("r = "):
+            out.append("r2 = " + ", ".join(names))
+        elif line.startswith("p = "):
+            out.append("p2 = " + ", ".join(names))
+        elif line.startswith("m = "):
+            out.append("m2 = " + " && ".join(f"r2.{x} == p2.{x}" for x in names))
+    return "\n".join(out)
+
+
+def run_second_definition(chk, n):
+    """models with a second policy definition p2 (1-4 fields: shorter than, as long as, longer than p) whose rows are in
+    the store next to the p / g rows: everything asked of p (decisions, management, the policy) must be as on Enforcer.
+    (FastModel keeps only the first definition of a section, so p2 itself is not addressed.)"""
+    rng = chk.rng
+    for kn in ("acl", "acl_deny", "rbac", "rbac_deny"):
+        kind = mgmt.KINDS[kn]
+        orders = key_orders(kind)
+        per = max(2, n // 4)
+        nrows = 0
+        for n2 in (2, 1, 3, 4):
+            text = p2_model_text(kind, n2)
+            cases = []
+            for i in range(per if n2 == 2 else max(1, per // 3)):
+                order = orders[rng.randrange(len(orders))]
+                g = mgmt.Gen(rng, kind, W)
+                rows = g.rows(rng.randint(0, 6))
+                for _ in range(rng.randint(1, 3)):
+                    r = g.fresh(0)
+                    r2 = [rng.choice(r) for _ in range(n2)]
+                    if (3, r2) not in rows:
+                        rows.insert(rng.randrange(len(rows) + 1), (3, r2))
+                        nrows += 1
+                ops = drop_empty_key(g.history(rng.randint(2, 10)))
+                if rng.random() < 0.5:
+                    pos = rng.randrange(len(ops) + 1)
+                    if not any(o[0] == 30 for o in ops[:pos]):
+                        ops[pos:pos] = [(31,) if rng.random() < 0.6 else (32, rng.randint(0, len(rows)))] + \
+                            mgmt.probe_ops(kind, g.uni, roles=False)[:6]
+                cases.append((rows, True, ops, make_spec(order, text)))
+            mgmt.run_cases(chk, kind, cases, None, label=f"second-definition-{kn}-p2x{n2}",
+                           impl_kwargs=dict(model_text=text), compare_model=False)
+            chk.extra.setdefault("strata", {}).setdefault(f"second_policy_definition_{kn}", dict(
+                key_orders=orders, histories=0, p2_rows=0))["histories"] += len(cases)
+        chk.extra["strata"][f"second_policy_definition_{kn}"]["p2_rows"] = nrows
+
+
+# calls the unchanged FastPolicy supports when the index has another depth than two (everything else reads the policy
+# through the unfiltered iteration, or through len(), which hard-code two levels)
+W_KEYS = {1: dict(p_remove=5, p_remove_many=3),
+          3: dict(p_add=8, p_add_many=5, p_remove=5, p_remove_many=3)}
+W_KEYS[4] = W_KEYS[3]
+
+
+def run_key_lengths(chk, n):
+    """cache-key orders of ONE, THREE and FOUR equality-compared fields (every permutation): load / reload (also failing
+    part-way), add / batch add / remove / batch remove (one key: removals only - adding calls len()), clear_policy,
+    enable_enforce, and enforce / batch_enforce / has_policy over the request and rule universe after them"""
+    rng = chk.rng
+    for kn, kind in (("acl", mgmt.KINDS["acl"]), ("acl_deny", mgmt.KINDS["acl_deny"]), ("acl4", ACL4),
+                     ("rbac", mgmt.KINDS["rbac"]), ("rbac_deny", mgmt.KINDS["rbac_deny"])):
+        lens = [k for k in (1, 3, 4) if k <= len(eq_fields(kind))]
+        all_orders = {k: orders_of(kind, k) for k in lens}
+        cases, used = [], {k: 0 for k in lens}
+        for i in range(n if len(lens) > 1 else max(2, n // 2)):
+            k = lens[i % len(lens)]
+            order = all_orders[k][(i // len(lens)) % len(all_orders[k])]
+            used[k] += 1
+            w = dict({x: 0 for x in mgmt.DEFAULT_WEIGHTS}, load=1.5, **W_KEYS[k])
+            if kind.g:
+                w.update(g_add=3, g_add_many=1, g_remove=2, g_remove_many=1, g_remove_filtered=1)
+            g = mgmt.Gen(rng, kind, w)
+            uni = g.uni
+            reqs = uni.requests()
+            rows = g.rows(rng.randint(2, 9))
+            ops = []
+            for _ in range(rng.randint(2, 10)):
+                x = rng.random()
+                if x < 0.5:
+                    ops.extend(g.op())
+                elif x < 0.55:
+                    ops.append((32, rng.randint(0, len(rows))))
+                elif x < 0.75:
+                    ops.append((50, list(rng.choice(reqs))))
+                elif x < 0.9:
+                    ops.append((54, 0, g.rule(0)))
+                elif x < 0.95:
+                    ops.extend(mgmt.batch_block(rng, reqs))
+                else:
+                    ops.append((38, rng.random() < 0.5))
+            if rng.random() < 0.15:                     # clear_policy (memory only): no reload after it
+                pos = rng.randrange(len(ops) + 1)
+                ops = ops[:pos] + [(30,)] + [o for o in ops[pos:] if o[0] not in (31, 32)]
+            ops += mgmt.probe_ops(kind, uni, roles=False)
+            seen = {tuple(r) for pt, r in rows if pt == 0} | {tuple(r) for r in g.seen[0]}
+            ops += [(54, 0, list(r)) for r in sorted(seen)]
+            cases.append((rows, True, ops, make_spec(order)))
+        # (batch_enforce is not part of the Mgmt model)
+        with_batch = [c for c in cases if any(o[0] == 71 for o in c[2])]
+        mgmt.run_cases(chk, kind, [c for c in cases if c not in with_batch], None, label=f"key-lengths-{kn}")
+        mgmt.run_cases(chk, kind, with_batch, None, label=f"key-lengths-{kn}", compare_model=False)
+        chk.extra.setdefault("strata", {})[f"key_lengths_{kn}"] = dict(
+            histories=len(cases), per_number_of_keys=used, orders={k: len(v) for k, v in all_orders.items()})
+
+
+def run_configurations(chk, n):
+    run_key_lengths(chk, n)
+    run_commas(chk, n)
+    run_second_definition(chk, n)
 
 
 # ============================================================================ A: the container
@@ -519,6 +771,270 @@ def run_container(chk, n_random, exh_len, vm_pool):
     chk.extra["strata"]["container_random"] = dict(sequences=per * len(C_ORDERS), key_orders=len(C_ORDERS))
 
 
+# ============================================================================ A': the container, other index depths
+# FastPolicy with ONE, THREE or FOUR cache keys.  Its unfiltered iteration / len hard-code two levels, so everything is
+# observed the way FastEnforcer.enforce does: inside `with fast_policy_filter(policy, *keys)` with one key per level.
+# No Coq model here (Fast.v is the two-level index): the SET SPEC of the refinement theorems is evaluated on the
+# implementation.   ops: (1, r) append  (2, r) remove  (3, r) contains  (13,) FastModel.clear_policy
+#                        (22, keys, body) with fast_policy_filter(policy, *keys): body   body = (4,) iter | (5,) len | 1 | 2 | 3
+def n_keyof(order, r):
+    return tuple(r[x] for x in order) if max(order) < len(r) else None
+
+
+def n_probe_sets(order, ops):
+    rules, keys = [], []
+    for op in ops:
+        inner = op[2] if op[0] == 22 else op
+        if op[0] == 22 and tuple(op[1]) not in keys:
+            keys.append(tuple(op[1]))
+        if inner[0] in (1, 2, 3):
+            r = tuple(inner[1])
+            if r not in rules:
+                rules.append(r)
+            k = n_keyof(order, r)
+            if k is not None and k not in keys:
+                keys.append(k)
+    return keys[:10], rules[:14]
+
+
+def run_container_n_impl(order, ops, probes=None):
+    """probes = (keys, rules) observed after every call: every bucket in `keys` through a scoped filter, membership of
+    every rule in `rules` (default: those the calls mention)"""
+    h = Holder(order)
+    keys, rules = probes or n_probe_sets(order, ops)
+    obs = []
+    for op in ops:
+        try:
+            if op[0] == 22:
+                with fast_policy_filter(h.fp, *S(op[1])):
+                    res = c_exec(h, op[2])
+            else:
+                res = c_exec(h, op)
+        except Exception as exc:  # noqa
+            res = [999, classify_exception(exc)]
+        fp = h.fp
+        if not isinstance(fp, FastPolicy) or list(fp._cache_key_order) != list(order):
+            obs.append([res, ["WRONG-CONTAINER", type(fp).__name__, list(getattr(fp, "_cache_key_order", []))], []])
+            break
+        try:
+            view = []
+            for k in keys:
+                with fast_policy_filter(fp, *S(k)):
+                    view.append([list(k), sorted(mgmt.ATOMS.rules(list(fp))), len(fp)])
+            mem = [1 if S(r) in fp else 0 for r in rules]
+        except Exception as exc:  # noqa
+            view, mem = ["RAISED", type(exc).__name__], []
+        obs.append([res, view, mem])
+    return obs
+
+
+def container_n_spec(order, ops, obs, probes=None):
+    """the container is a SET of rules; under a filter of one key per level the iteration is exactly the members whose key
+    fields are those keys (bucket_exact) and len is their number; `in` = membership; append adds, remove deletes,
+    clear_policy empties, nothing else changes anything"""
+    keys, rules = probes or n_probe_sets(order, ops)
+    Aset = set()
+
+    def bucket(k):
+        return sorted(list(r) for r in Aset if n_keyof(order, r) == tuple(k))
+    for i, (op, o) in enumerate(zip(ops, obs)):
+        res, view, mem = o
+        inner = op[2] if op[0] == 22 else op
+        c, ok = inner[0], res[0] == 0
+        if c == 1:
+            r = tuple(inner[1])
+            if n_keyof(order, r) is None:
+                if ok:
+                    return i, "append of a rule too short for the key positions succeeded"
+            else:
+                if not ok:
+                    return i, "append of a well-formed rule raised"
+                Aset.add(r)
+        elif c == 2:
+            r = tuple(inner[1])
+            if n_keyof(order, r) is not None:
+                if r in Aset:
+                    if res != [0, 1]:
+                        return i, "remove of a stored rule did not answer True"
+                    Aset.discard(r)
+                elif ok and res != [0, 1]:
+                    return i, "remove answered something else than True"
+        elif c == 3:
+            r = tuple(inner[1])
+            if res != [0, 1 if (n_keyof(order, r) is not None and r in Aset) else 0]:
+                return i, "`rule in policy` differs from membership in the stored set"
+        elif c == 4:
+            if res != [0, bucket(op[1])]:
+                return i, "filtered iteration is not exactly the stored rules whose key fields equal the filter"
+        elif c == 5:
+            if res != [0, len(bucket(op[1]))]:
+                return i, "filtered len differs from the number of stored rules whose key fields equal the filter"
+        elif c == 13:
+            Aset = set()
+        if view and view[0] in ("WRONG-CONTAINER", "RAISED"):
+            return i, ("after the call the policy is not the FastPolicy of the configured key order" if view[0] != "RAISED"
+                       else "after the call a filtered iteration / membership test raised")
+        for k, got, n in view:
+            exp = bucket(k)
+            if got != exp:
+                return i, ("after the call a bucket is not the stored rules with its key fields"
+                           + (" (a rule is hidden)" if len(got) < len(exp) else " (a rule is resurrected or foreign)"))
+            if n != len(exp):
+                return i, "after the call the filtered len differs from the number of rules in the bucket"
+        for r, m in zip(rules, mem):
+            if m != (1 if (n_keyof(order, r) is not None and r in Aset) else 0):
+                return i, "after the call `rule in policy` differs from membership in the stored set"
+    return None
+
+
+# values containing the separators of the policy text: different rules can have the same joined text
+CN_ATOMS = [0] + [A(x) for x in ("a,b", "a", "b,c", "c", "b", "a, b", "b, c")]
+
+
+def resplit(rule, rng):
+    """another rule with the same number of fields, made of known values, whose fields joined by "," (or by ", ") give the
+    same text as `rule`'s; None if there is none"""
+    strs = S(rule)
+    cands = []
+    if len(strs) < 2:
+        return None
+    for sep in (",", ", "):
+        text = sep.join(strs)
+        cuts = [i for i in range(len(text)) if text.startswith(sep, i)]
+        for pos in itertools.combinations(cuts, len(strs) - 1):
+            fields, start = [], 0
+            for c in pos:
+                if c < start:
+                    break
+                fields.append(text[start:c])
+                start = c + len(sep)
+            else:
+                fields.append(text[start:])
+                if fields != strs and all(f in mgmt.ATOMS.s2a for f in fields):
+                    cands.append([mgmt.ATOMS.s2a[f] for f in fields])
+    return rng.choice(cands) if cands else None
+
+
+def n_rule(rng, pool, order, atoms=C_ATOMS):
+    need = max(order) + 1
+    if pool and rng.random() < 0.55:
+        r = list(rng.choice(pool))
+        if rng.random() < 0.4 and r:
+            r[rng.randrange(len(r))] = rng.choice(atoms)
+    else:
+        x = rng.random()
+        if atoms is C_ATOMS:
+            n = need if x < 0.7 else need + 1 if x < 0.85 else rng.randint(0, need)
+        else:
+            n = need + rng.randint(0, 2) if x < 0.9 else rng.randint(0, need)
+        r = [rng.choice(atoms) for _ in range(n)]
+    pool.append(r)
+    if len(pool) > 8:
+        pool.pop(0)
+    return r
+
+
+def n_op(rng, pool, order, atoms=C_ATOMS):
+    x = rng.random()
+    if x < 0.34:
+        return (1, n_rule(rng, pool, order, atoms))
+    if x < 0.50:
+        return (2, n_rule(rng, pool, order, atoms))
+    if x < 0.62:
+        return (3, n_rule(rng, pool, order, atoms))
+    if x < 0.97:
+        k = n_keyof(order, n_rule(rng, pool, order, atoms))
+        if k is None or rng.random() < 0.2:
+            k = tuple(rng.choice(atoms) for _ in order)
+        body = rng.choice([(4,), (4,), (5,), (3, n_rule(rng, pool, order, atoms)), (1, n_rule(rng, pool, order, atoms)),
+                           (2, n_rule(rng, pool, order, atoms))])
+        return (22, list(k), body)
+    return (13,)
+
+
+def n_sequence(rng, order, atoms):
+    pool, ops = [], []
+    for _ in range(rng.randint(1, 12)):
+        op = n_op(rng, pool, order, atoms)
+        ops.append(op)
+        if atoms is not C_ATOMS and op[0] == 1 and rng.random() < 0.5:
+            tw = resplit(op[1], rng)                  # a rule with the same joined text is appended / removed / looked up too
+            if tw is not None:
+                pool.append(tw)
+                ops.append((rng.choice([1, 1, 2, 3]), tw))
+    return ops
+
+
+def exhaustive_container_n(order, maxlen):
+    a, b, d, r = A("alice"), A("bob"), A("data1"), A("read")
+    r1, r2, r3, r4 = [a, d, r, a], [b, d, r, a], [a, d, 0, a], [d, a, r, a]
+    k1, k4 = list(n_keyof(order, r1)), list(n_keyof(order, r4))
+    alpha = [(1, r1), (1, r2), (1, r3), (1, r4), (2, r1), (2, r4), (3, r1), (22, k1, (4,)), (22, k4, (5,)), (22, k1, (2, r1)),
+             (13,), (1, [a])]
+    for n in range(1, maxlen + 1):
+        for seq in itertools.product(alpha, repeat=n):
+            yield list(seq)
+
+
+def pretty_nop(op):
+    if op[0] == 22:
+        return ["with fast_policy_filter", S(op[1]), pretty_cop(op[2])]
+    return pretty_cop(op)
+
+
+def check_container_n_batch(chk, order, histories, label):
+    for ops in histories:
+        nontrivial = any(o[0] == 1 or (o[0] == 22 and o[2][0] == 1) for o in ops)
+        chk.count(("n", tuple(order), repr(ops)) if nontrivial else None)
+        probes = n_probe_sets(order, ops)          # fixed while the sequence is cut down (a later call may name the rule
+        v = container_n_spec(order, ops, run_container_n_impl(order, ops, probes), probes)      # that shows the damage)
+        if v is not None:
+            step, msg = v
+            small = ops[:step + 1]
+            if len(chk.spec_failures) < 3:
+                small = mgmt.shrink(small, lambda cand: (container_n_spec(order, cand, run_container_n_impl(order, cand, probes),
+                                                                          probes) or (0, ""))[1] == msg)
+            so = run_container_n_impl(order, small, probes)
+            chk.spec_fail(dict(level="container_n", stratum=label, cache_key_order=list(order), ops=[list(o) for o in small],
+                               probe_keys=[list(k) for k in probes[0]], probe_rules=[list(r) for r in probes[1]],
+                               readable=[pretty_nop(o) for o in small], readable_probe_rules=[S(r) for r in probes[1]]),
+                          dict(observations=so[-2:]), "the abstract rule set of the refinement theorems", msg, None)
+    chk.traces += len(histories)
+
+
+def run_container_n(chk, n_random, exh_len):
+    rng = chk.rng
+    nexh = 0
+    for order in ((2,), (0, 1, 2), (2, 1, 0), (3, 0, 2, 1)):
+        hs = list(exhaustive_container_n(order, exh_len))
+        nexh += len(hs)
+        check_container_n_batch(chk, order, hs, f"container-depth{len(order)}-exhaustive-{order}")
+    per_len = {1: 0, 3: 0, 4: 0}
+    for i in range(n_random):
+        k = (1, 3, 3, 4)[i % 4]
+        order = tuple(rng.randrange(4) for _ in range(k))              # includes repeated positions
+        per_len[k] += 1
+        check_container_n_batch(chk, order, [n_sequence(rng, order, C_ATOMS)], f"container-depth{k}-random")
+    # values that contain "," / ", " (here the two-level index too), rules with up to two fields more than the keys reach
+    per_len_c, same_text = {1: 0, 2: 0, 3: 0}, 0
+    for i in range(n_random // 2):
+        k = (2, 1, 2, 3)[i % 4]
+        order = tuple(rng.randrange(4) for _ in range(k))
+        per_len_c[k] += 1
+        ops = n_sequence(rng, order, CN_ATOMS)
+        texts = {}
+        for o in ops:
+            inner = o[2] if o[0] == 22 else o
+            if inner[0] == 1:
+                texts.setdefault(",".join(S(inner[1])), set()).add(tuple(inner[1]))
+        same_text += any(len(v) > 1 for v in texts.values())
+        check_container_n_batch(chk, order, [ops], f"container-depth{k}-separator-values")
+    chk.extra.setdefault("strata", {})["container_other_depths"] = dict(
+        exhaustive_sequences=nexh, exhaustive_len=exh_len, random_sequences=per_len)
+    chk.extra["strata"]["container_separator_values"] = dict(
+        random_sequences=per_len_c, sequences_appending_two_rules_with_one_joined_text=same_text)
+
+
 # ============================================================================ B: the enforcer on the container
 E_KINDS = ("acl", "acl_deny")
 
@@ -651,6 +1167,18 @@ def replay(chk):
             sys.exit(1)
         print("replay passes: the implementation satisfies the set spec on these calls and agrees with the model")
         sys.exit(0)
+    if c.get("level") == "container_n":
+        order = tuple(c["cache_key_order"])
+        ops = [(o[0], o[1], tuple(o[2])) if o[0] == 22 else tuple(o) for o in c["ops"]]
+        probes = ([tuple(k) for k in c["probe_keys"]], [tuple(r) for r in c["probe_rules"]]) if "probe_keys" in c else None
+        v = container_n_spec(order, ops, run_container_n_impl(order, ops, probes), probes)
+        print("replay container ops:", [pretty_nop(o) for o in ops], "cache_key_order", list(order))
+        print("  spec violation on the implementation:", v)
+        if v is not None:
+            print(f"VIOLATION property={PROP} replay={chk.replay_file}")
+            sys.exit(1)
+        print("replay passes: the implementation satisfies the set spec on these calls")
+        sys.exit(0)
     if c.get("level") == "enforcer":
         w = c["kind_wire"]
         kind = mgmt.Kind(c["kind"], *[bool(x) for x in w[:5]], eff=w[5], adapter=bool(w[6]), watcher=w[7])
@@ -670,7 +1198,10 @@ def replay(chk):
         print("replay passes: the implementation agrees with the model")
         sys.exit(0)
     order = c.get("cache_key_order") or [2, 1]
-    return mgmt.replay_case(chk, make_spec(order))
+    text = c.get("model_text")
+    if text or str(c.get("stratum", "")).startswith("commas-"):
+        chk.oracle = None       # outside the Mgmt model (second policy definition / run without model comparison)
+    return mgmt.replay_case(chk, make_spec(order, text), impl_kwargs=dict(model_text=text) if text else None)
 
 
 def run(chk, n_diff, n_cont, exh_len, n_enf, n_dec, n_vm):
@@ -680,6 +1211,7 @@ def run(chk, n_diff, n_cont, exh_len, n_enf, n_dec, n_vm):
         run_enforcer(chk, n_enf, vm_pool)
         run_decide_equal(chk, n_dec, vm_pool)
     run_differential(chk, n_diff)
+    run_container_n(chk, max(400, n_cont // 5), exh_len)
     if ORACLE is not None and vm_pool and n_vm:
         sample = [vm_pool[i] for i in sorted(chk.rng.sample(range(len(vm_pool)), min(n_vm, len(vm_pool))))]
         ok, nchk, log = core.vm_crosscheck(PROP, "From PyCasbin Require Import Base Fast.", "oracle_C19",
@@ -701,13 +1233,23 @@ def main():
                 "histories (single/batch/filtered/update, RBAC wrappers, clear, reload) with decisions over the request "
                 "universe, side by side on FastEnforcer and Enforcer for every admissible 2-field cache-key order (6 on ACL "
                 "models, 2 on RBAC models), allow- and deny-type effects; D: decide_equal evaluated by the model. "
+                "C' further configurations under the same differential spec: cache-key orders of one, three and four "
+                "equality-compared fields (every permutation; ACL, ACL with deny, a four-field all-equality ACL, RBAC) with "
+                "the calls FastPolicy supports at those depths; values containing ',' / ', ' (four- and three-field models, "
+                "no adapter, rules with the same joined text added on purpose); models with a second policy definition p2 of "
+                "1-4 fields whose rows are in the store. A' container at depths 1, 3, 4 (and 2 with separator values): the set "
+                "spec observed through scoped filters, exhaustive short sequences + random. "
                 "non-trivial = at least one mutating call; distinct by (stratum, key order, calls)")
-    chk.assumptions = ["admissible cache-key order = two policy fields compared by equality with the request field "
-                       "at the same position (FastPolicy hard-codes two index levels; other lengths are unsupported)",
+    chk.assumptions = ["admissible cache-key order = policy fields compared by equality with the request field at the same "
+                       "position.  FastPolicy's unfiltered iteration and len() hard-code two index levels: with one, three or "
+                       "four keys only load / reload, add / batch add / remove / batch remove (one key: removals only), "
+                       "has_policy, clear_policy, enable_enforce and enforce / batch_enforce are supported and compared "
+                       "(get_policy and the other getters, update*, filtered removal, save_policy, enforce_ex are not)",
                        "priority effects are inadmissible for FastEnforcer (its buckets are unordered sets; "
                        "C19_priority_order_refuted shows that even an insertion-ordered bucket would not keep the plain order)",
-                       "only the first p / g definition is loaded by FastModel (add_def returns None): models with g2/p2 "
-                       "and EnforceContext requests are outside 'ACL and RBAC models'",
+                       "only the first p / g definition is loaded by FastModel (add_def returns None): g2, management of / "
+                       "requests against p2 and EnforceContext requests are outside 'ACL and RBAC models' (a model that HAS a p2 "
+                       "and p2 rows in its store is exercised for everything asked of p)",
                        "the order in which a Python set is iterated is unspecified: iterations are compared as sets"]
     chk.trusted = ["hand-written models coq/theories/{Policy,RoleGraph,Mgmt,Fast}.v tied by the differential correspondence "
                    "(container / enforcer / history level)"]
